@@ -213,7 +213,8 @@ Record ruv_case := mkRuv {
   rc_y : id;
   rc_eps : list (id * expr * bool);     (* epsilon, documented factor (real symbols), multiply the old coefficient? *)
   rc_syms : list id;
-  rc_envs : list (list (id * Q))        (* every epsilon is 0 in these *)
+  rc_envs : list (list (id * Q));       (* every epsilon is 0 in these *)
+  rc_iiv_pairs : list (id * id)         (* set_iiv_on_ruv: (epsilon, eta) in call order; [] for the other transformations *)
 }.
 
 Definition osub (a b : option Q) : option Q :=
@@ -221,7 +222,7 @@ Definition osub (a b : option Q) : option Q :=
 Definition omul (a b : option Q) : option Q :=
   match a, b with Some x, Some y => Some (Qred (x * y)) | _, _ => None end.
 
-Definition check_ruv (c : ruv_case) : list nat :=
+Definition check_ruv (T : templates) (c : ruv_case) : list nat :=
   let ya m := value_at (rc_after c) m (rc_y c) in
   let yb m := value_at (rc_before c) m (rc_y c) in
   let pred := summarize 2 (map (fun m => cmp_oq (ya m) (yb m)) (rc_envs c)) in
@@ -235,7 +236,13 @@ Definition check_ruv (c : ruv_case) : list nat :=
              match cmp_oq ca (omul cb f), cmp_oq ca2 (omul (Some 2%Q) ca) with
              | 0, 0 => 0 | 1, _ => 1 | _, 1 => 1 | _, _ => 2 end) (rc_eps c)) (rc_envs c) in
   tag3 pred 35 ++ tag3 (summarize 2 coeffs) 34 ++
-  tag3 (progs_agree 2 (rc_envs c) (rc_syms c) (rc_before c) (rc_after c)) 33.
+  tag3 (progs_agree 2 (rc_envs c) (rc_syms c) (rc_before c) (rc_after c)) 33 ++
+  (* 48: hand model of set_iiv_on_ruv (the regenerated substitution applied to every statement), at non-zero epsilons too *)
+  match rc_iiv_pairs c with
+  | [] => []
+  | ps => let envs := map env_of (rc_envs c ++ map (fun m => fold_left (fun acc p => set_env acc (fst p) 3%Q) ps m) (rc_envs c)) in
+          tag3 (stmts_agree 2 envs (set_iiv_on_ruv T ps (rc_before c)) (rc_after c)) 48
+  end.
 
 (* ---------------------------------------------------------------------------------------------------- *)
 (* transit compartments / absorption: mean times                                                        *)
@@ -546,7 +553,7 @@ Definition verdict (T : templates) (c : case) : list nat :=
   | CCov c => check_cov T c
   | CIiv c => check_iiv T c
   | CErr c => check_err T c
-  | CRuv c => check_ruv c
+  | CRuv c => check_ruv T c
   | COde c => check_ode T c
   | CAllo c => check_allo T c
   | CCat c => check_cat T c
